@@ -705,6 +705,72 @@ pub fn control_single_avp_corpus() -> Vec<(String, Vec<u8>)> {
     }
     out
 }
+/// data messages whose offset size is close to the 16-bit maximum, with that many pad octets really present; with a
+/// Length field both a small Length (rejected: it does not cover the pad) and the exact total where that fits 16 bits
+pub fn large_offset_datas() -> Vec<(String, Vec<u8>)> {
+    let mut large: Vec<(String, Vec<u8>)> = vec![];
+    // flag word in the crate's numbering: T = 0x0100, L = 0x0200, S = 0x1000, O = 0x4000, version nibble 0x0020
+    for (wname, word) in [("lo", 0x4220u16), ("lso", 0x5220), ("o", 0x4020), ("so", 0x5020)] {
+        for off in [65500u16, 65522, 65526, 65530, 65535] {
+            for length in [100u16, 65535] {
+                let mut b = word.to_be_bytes().to_vec();
+                if word & 0x0200 != 0 {
+                    b.extend(length.to_be_bytes());
+                }
+                b.extend([0, 1, 0, 2]);
+                if word & 0x1000 != 0 {
+                    b.extend([0, 3, 0, 4]);
+                }
+                b.extend(off.to_be_bytes());
+                b.extend(std::iter::repeat(0u8).take(off as usize));
+                b.extend(pat(200, 7));
+                large.push((format!("data-{wname}-off{off}-len{length}"), b));
+                if word & 0x0200 == 0 {
+                    break;
+                }
+            }
+        }
+    }
+    large
+}
+/// deterministic single-site mutations of well-formed wire forms (bit flips, extreme octets, truncations, a length field off
+/// by one): inputs one edit away from the structured corpus
+pub fn mutated_corpus() -> Vec<(String, Vec<u8>)> {
+    let mut out: Vec<(String, Vec<u8>)> = vec![];
+    let base: Vec<(String, Vec<u8>)> = message_corpus().into_iter().filter(|(_, b)| b.len() >= 6 && b.len() <= 160).step_by(7).collect();
+    for (name, b) in base {
+        let n = b.len();
+        let mut sites: Vec<usize> = (0..n.min(20)).collect();
+        sites.extend([n / 2, n - 2, n - 1]);
+        sites.sort();
+        sites.dedup();
+        for &p in &sites {
+            for (mname, f) in [("x01", 0x01u8), ("x02", 0x02), ("x40", 0x40), ("x80", 0x80)] {
+                let mut m = b.clone();
+                m[p] ^= f;
+                out.push((format!("mut-{name}-{p}{mname}"), m));
+            }
+            for v in [0u8, 0xff] {
+                if b[p] != v {
+                    let mut m = b.clone();
+                    m[p] = v;
+                    out.push((format!("mut-{name}-{p}set{v:02x}"), m));
+                }
+            }
+        }
+        for cut in [1usize, 2, 5] {
+            if n > cut {
+                out.push((format!("mut-{name}-cut{cut}"), b[..n - cut].to_vec()));
+            }
+        }
+        for ins in [n / 2, n] {
+            let mut m = b.clone();
+            m.insert(ins, 0x5a);
+            out.push((format!("mut-{name}-ins{ins}"), m));
+        }
+    }
+    out
+}
 /// deterministic pseudo-random octet strings
 pub fn noise(count: usize, max_len: usize) -> Vec<Vec<u8>> {
     let mut x: u64 = 0x9e3779b97f4a7c15;
